@@ -10,7 +10,8 @@ REPO = os.environ.get("KOGE29_REPO", "/repo")
 def kani_env():
     env = dict(os.environ)
     env["CARGO_NET_OFFLINE"] = "true"
-    env["RUSTFLAGS"] = "--cfg koge29_verif"
+    # the C07 dispatch harnesses carry one kani::stub attribute per exec target (> the default macro recursion limit)
+    env["RUSTFLAGS"] = '--cfg koge29_verif -Zcrate-attr=recursion_limit="1048576"'
     env["KOGE29_VERIF_DIR"] = VERIF
     env["CARGO_TARGET_DIR"] = os.path.join(CACHE, "kani-target")
     return env
@@ -20,6 +21,9 @@ def prepare():
     os.makedirs(CACHE, exist_ok=True)
     # regenerate the form harnesses + registry, copy the repository's lock file
     subprocess.run([sys.executable, os.path.join(VERIF, "kani", "gen_forms.py")], check=True, stdout=subprocess.DEVNULL)
+    # the C07 stubs and table are generated from the dispatcher's current text; a lost anchor leaves the old file
+    # in place and is reported by the C07 check through the missing/failed harness
+    subprocess.run([sys.executable, os.path.join(VERIF, "kani", "gen_c07.py")], check=False, stdout=subprocess.DEVNULL)
     shutil.copyfile(os.path.join(REPO, "Cargo.lock"), os.path.join(CRATE, "Cargo.lock"))
 
 
